@@ -19,7 +19,7 @@ SPEC = dict(
             _g("c24_g_size", "5 skeletons with one unconstrained byte b in a chunk-size line: b'2', '0'b'2', '2'b CRLF, '2'b LF (each + 'ab' CRLF '0' CRLF CRLF) and '1' CRLF 'X' CRLF b CRLF CRLF (first digit, 0x/0X, digit/BWS/';'/CR after the digits, the CR, first byte of the second chunk-size line); output-space limit 1" + _GQ + _X, max_samples=3),
             _g("c24_g_ext", "4 skeletons with 3 unconstrained bytes: '1;' b b b, '1;a=' b b b, '1;a=\"' b b b '\"', '1;' b 'a' b '=' b 'v' (each + CRLF 'X' CRLF '0' CRLF CRLF): extension list, value token/quoted-string, qdtext/quoted-pair, BWS positions; output-space limit 1" + _GQ, ("done", "bad"), max_samples=3),
             _g("c24_g_end", "3 skeletons: '2' CRLF 'XY' b b '0' CRLF CRLF (CRLF after chunk-data; output-space limit in {1,3}), '1' CRLF 'X' CRLF '0' b b LF (after the last-chunk size), '1' CRLF 'X' CRLF '0' CRLF b b b (trailer-section and final CRLF)" + _GQ + _X, max_samples=3),
-            _g("c24_g_big", "b 'fffffffffffffff' b CRLF 'X' (first and 17th size character unconstrained: 0fff.., 7fff.., 8000.., 17 digits) and '7fffffffffffff' b b CRLF 'X' (15th and 16th)" + _GQ, ("more", "bad"), max_samples=3),
+            _g("c24_g_big", "b 'fffffffffffffff' b CRLF 'X' (first and 17th size character unconstrained: 0fff.., 7fff.., 8000.., 17 digits) and '7fffffffffffff' b b CRLF 'X' (15th and 16th) and b b '00000000000000' b CRLF 'X' (17 digits whose 64-bit accumulation wraps around)" + _GQ, ("more", "bad"), max_samples=3),
             _g("c24_any", "every input of 1..2 unconstrained bytes; relaxed_header_parser = 1; one-shot and every split point" + _X, ("more", "bad"), max_samples=3),
         ],
         thorough=[
